@@ -22,12 +22,17 @@ def u(n):
     return ("U4", [n])
 
 
+def rid(r):
+    """Report ids are numbers or text (E5 RPTID: A or an integer format); the text id "1" and the number 1 are different reports."""
+    return ("A", r.encode()) if isinstance(r, str) else u(r)
+
+
 def s2f33(defs):
-    return e5.enc(("L", [u(7), ("L", [("L", [u(r), ("L", [u(v) for v in vids])]) for r, vids in defs])]))
+    return e5.enc(("L", [u(7), ("L", [("L", [rid(r), ("L", [u(v) for v in vids])]) for r, vids in defs])]))
 
 
 def s2f35(links):
-    return e5.enc(("L", [u(8), ("L", [("L", [u(c), ("L", [u(r) for r in rs])]) for c, rs in links])]))
+    return e5.enc(("L", [u(8), ("L", [("L", [u(c), ("L", [rid(r) for r in rs])]) for c, rs in links])]))
 
 
 def s2f37(enable, ceids):
@@ -45,6 +50,10 @@ REQUESTS = {
     "bad_then_def2": (33, [(1, [VID_UNKNOWN]), (2, [DV])], False),
     "def1_twice": (33, [(1, [SV]), (1, [DV])], True),
     "del1": (33, [(1, [])], False),
+    "defA_dv": (33, [("1", [DV])], False),  # text id with the digits of report 1: a different report
+    "delA": (33, [("1", [])], False),
+    "link_c1_r1A": (35, [(1, [1, "1"])], False),
+    "link_c2_rA": (35, [(2, ["1"])], False),
     "del2": (33, [(2, [])], False),
     "delall": (33, [], False),
     "del1_del2": (33, [(1, []), (2, [])], False),
@@ -69,7 +78,7 @@ REQUESTS = {
 }
 ALPHABET_QUICK = ["def1_sv", "link_c1_r1", "enable_all", "def2_dv", "link_c1_r12", "del1", "link_c1_r11", "delall", "unlink_c1",
                   "link_c2_r1", "def1_svdv", "disable_c1", "def1_unknown_vid", "link_c2_then_bad", "set_sv", "del2", "link_c1_r2",
-                  "bad_then_def2", "link_bad_then_c2", "link_c1c2_r2", "link_c1c2_r1", "def12", "del1_del2"]
+                  "bad_then_def2", "link_bad_then_c2", "link_c1c2_r2", "link_c1c2_r1", "def12", "del1_del2", "defA_dv", "delA", "link_c1_r1A"]
 ALPHABET_FULL = list(REQUESTS) + ["set_sv"]
 # used by the concurrent part's set-up only (not in the BFS alphabets)
 REQUESTS["link_c2_r2"] = (35, [(2, [2])], False)
@@ -326,9 +335,9 @@ class Harness:
             rpts = []
             for rp in node[1][2][1]:
                 assert rp[0] == "L" and len(rp[1]) == 2
-                rid = rp[1][0][1][0]
+                rptid = rp[1][0][1].decode("latin-1") if rp[1][0][0] in ("A", "J") else rp[1][0][1][0]
                 vs = [(v[0], v[1]) for v in rp[1][1][1]]
-                rpts.append((rid, vs))
+                rpts.append((rptid, vs))
             return {"ceid": ceid, "reports": rpts}
         except Exception:  # noqa: BLE001
             return None
@@ -336,7 +345,7 @@ class Harness:
     def canon(self):
         reports, links = lib_tables(self.h)
         h = self.h
-        return {"reports": sorted(reports.items()), "links": sorted((k, v[0], v[1]) for k, v in links.items()),
+        return {"reports": sorted(reports.items(), key=repr), "links": sorted(((k, v[0], v[1]) for k, v in links.items()), key=repr),
                 "report_objects": sorted((repr(k), hbfs.plain_attrs(v)) for k, v in h.registered_reports.items()),
                 "link_objects": sorted((repr(k), hbfs.plain_attrs(v)) for k, v in h.registered_collection_events.items()),
                 "sv": self.h.status_variables[SV].value, "comm": self.ep.comm()}
